@@ -243,14 +243,20 @@ func (m *Model) CancelSlow(id string, slow map[string]bool) string {
 	return "?"
 }
 
-// FireDelay: the start delay of the job expired
+// FireDelay: the start delay handler of the job runs (timer expiry, possibly spurious or late). It is a no-op for a
+// canceled job; otherwise the job's delay counts as expired and the wait list of its pipeline is processed.
 func (m *Model) FireDelay(id string) {
 	m.Started = nil
 	j := m.Jobs[id]
-	if j == nil || j.State != JWaiting || !j.TimerPending {
+	if j == nil || j.State == JCanceled {
 		return
 	}
-	j.TimerPending = false
+	if j.State == JFinished && j.Sim != nil && j.Sim.Verdict().Canceled != No {
+		return
+	}
+	if j.State == JWaiting {
+		j.TimerPending = false
+	}
 	m.dequeue(j.Pipe)
 }
 
